@@ -59,11 +59,15 @@ pub struct IoSpec {
     /// Disruptive: the stop event happens when this many input bytes were delivered (pipe).
     #[serde(default)]
     pub stop_at_input_byte: Option<u64>,
+    /// Disruptive: the input stalls after this many bytes (pipe: the read beyond never returns); once everybody
+    /// waits, the stop event arrives.
+    #[serde(default)]
+    pub stall_at: Option<u64>,
 }
 
 impl IoSpec {
     pub fn is_benign(&self) -> bool {
-        self.eio_at.is_none() && self.eof_at.is_none() && self.stdout_fail_at.is_none() && self.stop_at_input_byte.is_none()
+        self.eio_at.is_none() && self.eof_at.is_none() && self.stdout_fail_at.is_none() && self.stop_at_input_byte.is_none() && self.stall_at.is_none()
     }
     pub fn any(&self) -> bool {
         *self != IoSpec::default()
@@ -597,6 +601,7 @@ pub fn io_plan(spec: &ExecSpec, input_id: Option<(u64, u64)>) -> IoPlan {
         stdout_eintr_every: spec.io.stdout_eintr_every,
         clock_jumps: spec.io.clock_jumps,
         stop_at_input_byte: spec.io.stop_at_input_byte,
+        stall_at: spec.io.stall_at,
         // (hash-table seeds of the run's threads: a function of the schedule seed)
         entropy_seed: Some(fpsim_rt::rng::mix(&[spec.sched_seed, 0x656e74726f7079])),
     }
